@@ -68,7 +68,7 @@ def run(ck):
                 bump(be + "_matches_reference")
                 distinct.add(src)
                 continue
-            hit = [c for c in ("F2", "F13") + (("F3",) if be == "vm" else ()) if c in cls and c in findings]
+            hit = [c for c in (("F3",) if be == "vm" else ()) if c in cls and c in findings]
             if hit:
                 bump("failures_in_known_class_" + hit[0]); ck.known(findings[hit[0]], src.replace("\n", " ")[:140] + " -> " + why[:120])
             else:
